@@ -135,7 +135,7 @@ func (d *diskFlow) call(x *Exec, call *ast.CallExpr, lhs []ast.Expr, s St) ([]St
 			d.note(s.Get("res") == "held" || s.Get("unresfail") != "", "R03a", site+":held", d.pos(call), "Unreserve releases a reservation that is held on every path reaching it",
 				"Unreserve reached with no reservation held (double release drives the counters negative)", x.Trace())
 			if s.Get("res") == "held" {
-				d.note(s.Get("resamt") == amt, "R03a", site+":amount", d.pos(call), "Unreserve releases exactly the amount that was reserved",
+				d.note(s.Get("resamt") == amt || relIs(s, s.Get("resamt"), "==", amt, true), "R03a", site+":amount", d.pos(call), "Unreserve releases exactly the amount that was reserved",
 					fmt.Sprintf("reserved %s but releases %s", s.Get("resamt"), amt), x.Trace())
 			}
 		}
@@ -154,6 +154,14 @@ func (d *diskFlow) call(x *Exec, call *ast.CallExpr, lhs []ast.Expr, s St) ([]St
 			v2, k2 := relLookup(s, sizeT, "<", "#0")
 			admitted = k1 && !v1 && k2 && !v2 // size == 0 needs no space
 		}
+		if !admitted && d.top == kGet {
+			// in get the item's size is the one the backend announced
+			if fs, ok := b.Term(x, identNamed(x, "foundSize"), s); ok {
+				v1, k1 := relLookup(s, "#0", "<", fs)
+				v2, k2 := relLookup(s, fs, "<", "#0")
+				admitted = k1 && !v1 && k2 && !v2
+			}
+		}
 		d.note(admitted, "R17f", site+":admitted", d.pos(call), "file creation is dominated by a successful Reserve of the item (or the item is empty)",
 			"path creates a file without a reservation (admission against max_size / max_size_hard_limit bypassed)", x.Trace())
 		if d.top == kGet {
@@ -162,7 +170,7 @@ func (d *diskFlow) call(x *Exec, call *ast.CallExpr, lhs []ast.Expr, s St) ([]St
 				"path creates the file without the foundSize > c.maxProxyBlobSize rejection", x.Trace())
 			d.note(relIs(s, fs, "<", "#0", false), "R12d", site+":nonneg", d.pos(call), "file creation for a proxied entry is dominated by foundSize >= 0",
 				"path creates the file with a possibly negative (unknown) backend size", x.Trace())
-			d.note(s.Get("p:disk.isSizeMismatch("+sizeT+","+fs+")") == "F", "R12d", site+":mismatch", d.pos(call), "file creation for a proxied entry is dominated by the requested/found size comparison",
+			d.note(s.Get("p:disk.isSizeMismatch("+sizeT+","+fs+")") == "F" || relIs(s, sizeT, "==", fs, true), "R12d", site+":mismatch", d.pos(call), "file creation for a proxied entry is dominated by the requested/found size comparison",
 				"path creates the file without isSizeMismatch(size, foundSize) having been rejected", x.Trace())
 		}
 		return b.ForkErr(x, lhs, 2, s, func(ok St) St {
@@ -441,7 +449,7 @@ func (d *diskFlow) exit(x *Exec, ret *ast.ReturnStmt, s St) {
 		}
 		if d.top == kGet {
 			// a non-nil reader that came from the backend implies committed
-			if RetNil(fn, s, 0) == "nonnil" && s.Get("validated") != "" {
+			if (RetNil(fn, s, 0) == "nonnil" || RetNil(fn, s, 2) == "nil") && s.Get("validated") != "" {
 				d.note(f == "committed", "R12e", fn.Name+":"+key+":served", pos, "a proxied entry is served only after it was committed", "reader returned for an uncommitted backend stream", x.Trace())
 			}
 		}
